@@ -449,8 +449,23 @@ def shard(i: int, n: int, tier: str, seed: int) -> Result:
         wide.append(RealFloat(s=rng.random() < 0.5, c=c, exp=e))
         wide.append(Float(s=rng.random() < 0.5, c=c, exp=e))
 
+    # the edges of the native float: subnormal range (bits below 2^-1074 must raise, not be rounded away), the
+    # largest finite double and the first values past it, 53/54-bit significands, redundant encodings of the same value
+    edge = []
+    for c in (1, 2, 3, 5, 6, 7, 9, (1 << 52) + 1, (1 << 53) - 1, (1 << 53) + 1, (1 << 54) - 1, 1 << 60):
+        for e in (-1130, -1080, -1077, -1076, -1075, -1074, -1073, -1070, -1023, -1022, 960, 969, 970, 971, 972, 1015, 1020, 1022, 1023, 1024, 1030):
+            for sgn in (False, True):
+                edge.append(RealFloat(s=sgn, c=c, exp=e))
+                edge.append(Float(s=sgn, c=c, exp=e))
     ops = [('+', operator.add, d_add), ('-', operator.sub, lambda a, b: d_add(a, d_neg(b))), ('*', operator.mul, d_mul)]
     distinct = 0
+    for k, a in enumerate(edge):
+        if k % n != i:
+            continue
+        mon.conversions(a)
+        mon.hash_eq(a)
+        mon.unop('neg', operator.neg, d_neg, a)
+        distinct += 1
     # unary + conversions + structure: split the value list over shards
     allvals = reals + floats + wide
     for k, a in enumerate(allvals):
